@@ -96,3 +96,31 @@ Proof. exact dirichlet_ghost. Qed.
 Theorem C07_noflux_ghost : forall xg xi aoh : R, aoh <> 0 -> (0 / 2 + aoh) * xg + (0 / 2 - aoh) * xi = 0 -> xg <= xi.
 Proof. exact noflux_ghost. Qed.
 Print Assumptions C07_noflux_ghost.
+
+From Coq Require Import Reals.
+From PFV Require Import Boundary Solver MaxPrincipleThy MaxPrincipleModel ComparisonThy.
+
+(* the comparison principle behind both bounds, periodic neighbours included: a neighbour is an unknown, the periodic image of an
+   unknown, or a ghost cell that cannot exceed a cell above the bound *)
+Theorem C07_comparison : forall (m : Mesh ROps) (D u : fvar ROps) (kap z r : cvar ROps) (E : R) (cells : list cell),
+  cells <> [] ->
+  (forall c a, In c cells -> In a (active_axes ROps m) -> (1 <= cidx a c <= mN ROps m a)%nat /\ signs_ok m D c a) ->
+  (forall c, In c cells -> Lrow m D u kap z c = r c) ->
+  (forall c, In c cells -> rsuml (fun a => divrow ROps m u a c) (active_axes ROps m) = 0) ->
+  (forall c, In c cells -> 0 < kap c) ->
+  (forall c, In c cells -> r c <= kap c * E) ->
+  (forall c a, In c cells -> In a (active_axes ROps m) ->
+     nb_upper z E cells c (cdn a c) /\ nb_upper z E cells c (cup a c)) ->
+  forall c, In c cells -> z c <= E.
+Proof. exact comparison_upper. Qed.
+Print Assumptions C07_comparison.
+(* the hypotheses are satisfiable: one-cell mesh [0,1], D = 1, u = 0, homogeneous Dirichlet on both sides *)
+Example C07_comparison_nonvacuous :
+  let cells := [(1, 0, 0)%nat] in
+  cells <> [] /\
+  (forall c a, In c cells -> In a (active_axes ROps exR) -> (1 <= cidx a c <= mN ROps exR a)%nat /\ signs_ok exR exD c a) /\
+  (forall c, In c cells -> Lrow exR exD exu (fun _ => 1) exz c = 5) /\
+  (forall c, In c cells -> rsuml (fun a => divrow ROps exR exu a c) (active_axes ROps exR) = 0) /\
+  (forall c a, In c cells -> In a (active_axes ROps exR) -> nb_homog cells exz c (cdn a c) /\ nb_homog cells exz c (cup a c)) /\
+  Rabs (exz (1, 0, 0)%nat) <= 5.
+Proof. exact comparison_hyps_satisfiable. Qed.
